@@ -14,6 +14,7 @@ import (
 	"os"
 	"path/filepath"
 	"sort"
+	"strconv"
 	"strings"
 	"sync"
 	"sync/atomic"
@@ -42,7 +43,7 @@ var recSvc = ev.New(prop, "service-hostile",
 		"requests routed to upstream clients whose server is the harness answering with hostile replies (socks5/http/ss2022 TCP, socks5/none/ss2022 UDP); requests whose route "+
 		"needs a DNS lookup answered by hostile DNS-over-TCP replies. After every operation the canary tunnel must echo; after every batch a fresh SOCKS5 CONNECT, a direct-server "+
 		"connection and a UDP exchange must work. Non-trivial: the operation reached a listener and (for via/dns) the hostile upstream was actually consulted; distinct key = kind + listener + build + close mode").
-	Require("kind:tcp", "kind:udp", "kind:via-tcp", "kind:via-udp", "kind:dns", "upstream-consulted", "dns-consulted",
+	Require("kind:tcp", "kind:udp", "kind:via-tcp", "kind:via-udp", "kind:dns", "kind:flood", "flood:route-reject", "upstream-consulted", "dns-consulted",
 		"udp-batch:no", "udp-batch:sendmmsg", "proto:s5", "proto:http", "proto:none", "proto:ss128", "proto:ss256", "proto:ssfb", "proto:direct")
 
 // ---- plan (journaled as JSON)
@@ -59,6 +60,8 @@ type svcOp struct {
 	ReplyMode string   `json:"replyMode,omitempty"`
 	ReplySel  uint8    `json:"replySel,omitempty"`
 	Note      string   `json:"note,omitempty"`
+	FloodMs   int      `json:"floodMs,omitempty"` // flood: duration
+	Sockets   int      `json:"sockets,omitempty"` // flood: number of source sockets
 }
 
 type svcPlan struct {
@@ -163,6 +166,9 @@ const (
 	portEvilSS   = 7003
 	portEvilNone = 7004
 	portDNS      = 7005
+	portDeadS5   = 7006  // routed to a SOCKS5 upstream whose TCP port is closed: every UDP session creation fails
+	portDeadNone = 7007  // routed to an ss-none upstream whose name does not resolve
+	portRejected = 20005 // inside the "few-ranges" route whose client is "reject"
 )
 
 func freePorts(n int) ([]int, error) {
@@ -260,13 +266,14 @@ func startService(bitmap bool) (*svcEnv, error) {
 	go env.evilU.serve()
 
 	names := append(append([]string(nil), tcpListeners...), udpListeners...)
-	ports, err := freePorts(len(names))
+	ports, err := freePorts(len(names) + 1)
 	if err != nil {
 		return nil, err
 	}
 	for i, n := range names {
 		env.ports[n] = ports[i]
 	}
+	closedPort := ports[len(names)] // bound and released: nothing listens there
 	addr := func(k string) string { return fmt.Sprintf("127.0.0.1:%d", env.ports[k]) }
 	tl := func(k string) []any { return []any{map[string]any{"network": "tcp4", "address": addr(k)}} }
 	ul := func(nat string, ks ...string) []any {
@@ -306,12 +313,16 @@ func startService(bitmap bool) (*svcEnv, error) {
 		map[string]any{"name": "evil-http", "protocol": "http", "endpoint": evilT, "enableTCP": true},
 		map[string]any{"name": "evil-ss", "protocol": "2022-blake3-aes-128-gcm", "tcpAddress": evilT, "udpAddress": evilUAddr, "psk": b64(key16(1)), "enableTCP": true, "enableUDP": true, "mtu": 1500},
 		map[string]any{"name": "evil-none", "protocol": "none", "tcpAddress": evilT, "udpAddress": evilUAddr, "enableTCP": true, "enableUDP": true, "mtu": 1500},
+		map[string]any{"name": "dead-s5", "protocol": "socks5", "endpoint": fmt.Sprintf("127.0.0.1:%d", closedPort), "enableTCP": true, "enableUDP": true, "mtu": 1500},
+		map[string]any{"name": "dead-none", "protocol": "none", "endpoint": "nxdomain.test:9", "enableTCP": true, "enableUDP": true, "mtu": 1500},
 	}
 	routes := []any{
 		map[string]any{"name": "to-evil-s5", "toPorts": []int{portEvilS5}, "client": "evil-s5"},
 		map[string]any{"name": "to-evil-http", "network": "tcp", "toPorts": []int{portEvilHTTP}, "client": "evil-http"},
 		map[string]any{"name": "to-evil-ss", "toPorts": []int{portEvilSS}, "client": "evil-ss"},
 		map[string]any{"name": "to-evil-none", "toPorts": []int{portEvilNone}, "client": "evil-none"},
+		map[string]any{"name": "to-dead-s5", "toPorts": []int{portDeadS5}, "client": "dead-s5"},
+		map[string]any{"name": "to-dead-none", "toPorts": []int{portDeadNone}, "client": "dead-none"},
 		map[string]any{"name": "resolved", "toPorts": []int{portDNS}, "toPrefixes": []string{"10.0.0.0/8"}, "resolver": "evildns", "client": "reject"},
 		map[string]any{"name": "few-ranges", "toPortRanges": "20000-20010,20020-20030", "client": "reject"},
 	}
@@ -671,6 +682,35 @@ func (env *svcEnv) run(op svcOp) (reached, consulted bool) {
 			_, _ = io.Copy(io.Discard, tc)
 			tc.Close()
 		}
+	case "flood":
+		pkts := env.buildDatagrams(op)
+		if len(pkts) == 0 {
+			return
+		}
+		n := min(max(op.Sockets, 1), 4)
+		deadline := time.Now().Add(time.Duration(min(max(op.FloodMs, 50), 5000)) * time.Millisecond)
+		var wg sync.WaitGroup
+		var sent atomic.Int64
+		for i := 0; i < n; i++ {
+			u, err := net.DialUDP("udp4", nil, &net.UDPAddr{IP: net.IPv4(127, 0, 0, 1), Port: port})
+			if err != nil {
+				continue
+			}
+			reached = true
+			wg.Go(func() {
+				defer u.Close()
+				for k := 0; k < 400000; k++ {
+					if k&255 == 0 && time.Now().After(deadline) {
+						return
+					}
+					if _, err := u.Write(pkts[k%len(pkts)]); err == nil { // ECONNREFUSED / ENOBUFS are expected now and then
+						sent.Add(1)
+					}
+				}
+			})
+		}
+		wg.Wait()
+		recSvc.Label("flood-datagrams", sent.Load())
 	case "udp", "via-udp":
 		u, err := net.DialUDP("udp4", nil, &net.UDPAddr{IP: net.IPv4(127, 0, 0, 1), Port: port})
 		if err != nil {
@@ -791,6 +831,38 @@ func getPools() *seedPools {
 func pick(rt *rapid.T, pool [][]byte, label string) (int, []byte) {
 	i := rapid.IntRange(0, len(pool)-1).Draw(rt, label)
 	return i, pool[i]
+}
+
+// genFlood: tens of thousands of datagrams from 1-3 source addresses to a target whose session can never be
+// established (router says reject / SOCKS5 upstream refuses the TCP connection / ss-none upstream does not
+// resolve), so sessions are created and torn down continuously while packets for them keep arriving.
+func genFlood(rt *rapid.T, ms int) svcOp {
+	op := svcOp{Kind: "flood", Build: "raw", FloodMs: ms}
+	op.Listener = rapid.SampledFrom([]string{"none/udp", "s5/udp", "none/udp", "s5/udp", "none/udpmm", "s5/udpmm", "ss128/udp", "ss128/udpmm", "direct/udp"}).Draw(rt, "floodListener")
+	port := rapid.SampledFrom([]uint16{portRejected, portRejected, portDeadS5, portDeadNone}).Draw(rt, "floodTarget")
+	op.Note = map[uint16]string{portRejected: "route-reject", portDeadS5: "dead-s5", portDeadNone: "dead-none"}[port]
+	op.Sockets = rapid.IntRange(1, 3).Draw(rt, "floodSockets")
+	target := socksAddrIP(netip.MustParseAddr("127.0.0.1"), port)
+	if rapid.IntRange(0, 3).Draw(rt, "floodName") == 0 {
+		target = socksAddrDomain("echo.test", port)
+	}
+	payload := []byte("flood")
+	switch strings.SplitN(op.Listener, "/", 2)[0] {
+	case "s5":
+		op.Data = []string{hex.EncodeToString(cat([]byte{0, 0, 0}, target, payload))}
+	case "none":
+		op.Data = []string{hex.EncodeToString(cat(target, payload))}
+	case "ss128":
+		op.Build, op.Sel = "ss-udp", ssFixTS
+		sid := rapid.Uint64().Draw(rt, "floodSid")
+		for pid := uint64(0); pid < 128; pid++ { // distinct packet ids: the replay filter of a live session would drop repeats
+			op.Data = append(op.Data, hex.EncodeToString(dgram(sid, pid, cat(make([]byte, 9), []byte{0, 0}, target, payload))[2:]))
+		}
+	default: // direct: the tunnel target is fixed (the echo peer), the flood just loads the generic path
+		op.Data = []string{hex.EncodeToString(payload)}
+		op.Note = "direct"
+	}
+	return op
 }
 
 func genOp(rt *rapid.T) svcOp {
@@ -1005,7 +1077,10 @@ func executePlan(t failer, env *svcEnv, plan svcPlan) {
 				labels = append(labels, "upstream-consulted")
 			}
 		}
-		nontrivial := reached && (consulted || op.Kind == "tcp" || op.Kind == "udp")
+		nontrivial := reached && (consulted || op.Kind == "tcp" || op.Kind == "udp" || op.Kind == "flood")
+		if op.Kind == "flood" {
+			labels = append(labels, "flood:"+op.Note)
+		}
 		recSvc.Case(fmt.Sprintf("%s/%s/%s/%s/%s", op.Kind, op.Listener, op.Build, op.Close, op.Note), nontrivial, labels...)
 		if err := env.canaryTick(); err != nil {
 			b, _ := json.Marshal(plan.Ops[:i+1])
@@ -1020,6 +1095,13 @@ func executePlan(t failer, env *svcEnv, plan svcPlan) {
 		b, _ := json.Marshal(plan)
 		t.Fatalf("SIG=C06/service-canary VERIF-VIOLATION after the batch: %v\nplan: %s", err, b)
 	}
+}
+
+func floodMs() int {
+	if v, err := strconv.Atoi(os.Getenv("VERIF_C06_FLOOD_MS")); err == nil && v > 0 {
+		return v
+	}
+	return 700
 }
 
 func TestServiceHostile(t *testing.T) {
@@ -1047,6 +1129,8 @@ func TestServiceHostile(t *testing.T) {
 		for i := 0; i < n; i++ {
 			plan.Ops = append(plan.Ops, genOp(rt))
 		}
+		// exactly one flood per batch, at a drawn position
+		plan.Ops[rapid.IntRange(0, n-1).Draw(rt, "floodAt")] = genFlood(rt, floodMs())
 		executePlan(rt, env, plan)
 		recSvc.Sample(map[string]any{"ops": len(plan.Ops), "first": plan.Ops[0].Kind + " " + plan.Ops[0].Listener})
 	})
@@ -1078,3 +1162,41 @@ func TestReplayService(t *testing.T) {
 }
 
 var _ = errors.New
+
+// TestServiceFlood is the deterministic form of the flood operation: every UDP listener of the session-creating
+// protocols (both batch modes) x every way a session can fail to come up, one after the other, canary after each.
+func TestServiceFlood(t *testing.T) {
+	env, err := startService(!ev.IsKnown(prop, sigRouterPort0))
+	if err != nil {
+		t.Fatalf("harness: %v", err)
+	}
+	defer env.stop()
+	if err := env.canaryFull(); err != nil {
+		t.Fatalf("SIG=C06/service-canary VERIF-VIOLATION before the floods: %v", err)
+	}
+	var plan svcPlan
+	plan.Bitmap = env.bitmap
+	payload := []byte("flood")
+	for _, l := range []string{"none/udp", "none/udpmm", "s5/udp", "s5/udpmm", "ss128/udp", "ss128/udpmm"} {
+		for _, tgt := range []struct {
+			port uint16
+			note string
+		}{{portRejected, "route-reject"}, {portDeadS5, "dead-s5"}, {portDeadNone, "dead-none"}} {
+			op := svcOp{Kind: "flood", Listener: l, Build: "raw", FloodMs: floodMs(), Sockets: 2, Note: tgt.note}
+			target := socksAddrIP(netip.MustParseAddr("127.0.0.1"), tgt.port)
+			switch strings.SplitN(l, "/", 2)[0] {
+			case "s5":
+				op.Data = []string{hex.EncodeToString(cat([]byte{0, 0, 0}, target, payload))}
+			case "none":
+				op.Data = []string{hex.EncodeToString(cat(target, payload))}
+			default:
+				op.Build, op.Sel = "ss-udp", ssFixTS
+				for pid := uint64(0); pid < 128; pid++ {
+					op.Data = append(op.Data, hex.EncodeToString(dgram(uint64(tgt.port), pid, cat(make([]byte, 9), []byte{0, 0}, target, payload))[2:]))
+				}
+			}
+			plan.Ops = append(plan.Ops, op)
+		}
+	}
+	executePlan(t, env, plan)
+}
